@@ -108,3 +108,8 @@ def execute(sc, workdir):
 
 def finding_key(entry, sc):
     return str(entry[1])
+
+
+def shrink(sc):
+    from .corecommon import shrink_candidates
+    return shrink_candidates(sc)
